@@ -125,6 +125,8 @@ pub struct Exec {
     pub obs: Vec<Vec<(Ph, usize, u64, u64)>>,
     pub record_obs: bool,
     pub drops_seen: Vec<u64>,
+    /// destructor runs observed per op index
+    pub op_drops: BTreeMap<usize, u64>,
     /// ids expected to be torn down by a failing constructor in the current call
     pub teardown: Option<u8>,
     pub use_hook: bool,
@@ -164,6 +166,7 @@ impl Exec {
             inconclusive: None,
             cfg_check_traverse_every: true,
             op_events: BTreeMap::new(),
+            op_drops: BTreeMap::new(),
             last_gone: Vec::new(),
         }
     }
@@ -191,15 +194,26 @@ impl Exec {
         track::drain_events(|e| evs.push(e));
 
         self.last_gone.clear();
+        if !drops.is_empty() {
+            *self.op_drops.entry(self.op_index).or_insert(0) += drops.len() as u64;
+        }
         for e in drops {
             self.last_gone.push(e.id);
             let Some(o) = self.w.objs.get_mut(&e.id) else {
                 continue; // not an arena object of this history (e.g. layout tokens)
             };
             o.drops += 1;
+            if e.panicked {
+                o.drop_panicked = true;
+            }
             let (a, drops_n, id) = (o.a, o.drops, o.id);
             self.drops_seen[a as usize] += 1;
             self.stats.inc("destruct_events");
+            if e.panicked {
+                self.stats.inc(&format!("destructor_panics_in_{}", track::ctx_name(e.ctx)));
+                self.mon[a as usize].pace.off = true;
+                self.pace_taint(a);
+            }
             if drops_n > 1 {
                 self.viol("C04", "M-once", format!("object {} destructed {} times (ctx {})", id, drops_n, track::ctx_name(e.ctx)));
             }
@@ -401,7 +415,7 @@ impl Exec {
         let arith = msg.contains("overflow") || msg.contains("underflow");
         if arith {
             self.viol("C10", "M-metrics", format!("{}: arithmetic fault inside the library: '{}' at {}", site, msg, loc));
-        } else if msg.contains("slot") || msg.contains("DynamicRoot") || msg.contains("mismatched root set") {
+        } else if msg.contains("slot") || msg.contains("DynamicRoot") || msg.contains("mismatched root set") || loc.contains("dynamic_roots.rs") {
             self.viol("C14", "M-roots", format!("{}: panic '{}' at {}", site, msg, loc));
         } else if site.starts_with("callback") {
             self.viol("C06", "M-panic", format!("{}: unexpected panic '{}' at {}", site, msg, loc));
